@@ -319,6 +319,7 @@ def oracle(sch, txs, io, mo):
 def _oracle(sch, txs, io, mo):
     out = []
     prev = []
+    full_txs = txs
     for k, a in enumerate(io):
         if a["commit"]:
             mp = misplaced_index_oracle(sch, a["facts"], a.get("other", ()))
@@ -350,6 +351,13 @@ def _oracle(sch, txs, io, mo):
             if bd:
                 out.append(("C03:duplicate-error-without-duplicate", "; ".join(bd), k))
                 break
+        pan = [t for t in a.get("other", ()) if t.startswith("OPPANIC:")]
+        if pan:
+            # store_c03s.go c03RunHistory: the transaction after this one made the code under test panic; the index oracles
+            # above found nothing wrong in the state it started in
+            out.append(("C03:operation-panics", "the next transaction of the history (%s) panics inside boltz: %s" % (
+                " ".join(full_txs[k + 1])[:300] if k + 1 < len(full_txs) else "cut from the case", _unhex(pan[0][8:])[:300]), k))
+            break
         prev = a["facts"]
     return out
 
@@ -363,8 +371,9 @@ def _minimal_prefix(c):
         if isinstance(replay_obj, dict) and "case" in replay_obj and isinstance(replay_obj.get("tx"), int):
             k = replay_obj["tx"]
             parts = replay_obj["case"].split(" TX ")
-            if len(parts) > k + 2:
-                replay_obj = dict(replay_obj, full_case=replay_obj["case"], case=" TX ".join(parts[:k + 2]))
+            keep = k + 3 if key.endswith(":operation-panics") else k + 2  # the panicking transaction stays in the replay
+            if len(parts) > keep:
+                replay_obj = dict(replay_obj, full_case=replay_obj["case"], case=" TX ".join(parts[:keep]))
                 for side in ("impl", "model"):
                     segs = replay_obj.get(side, "").split(" | ")
                     replay_obj[side] = " | ".join(segs[:k + 1]) + " | "
